@@ -98,6 +98,9 @@ pub fn judge(case: &Case) -> Verdict {
                 );
             }
         }
+        if std::env::var("VJX_FAITHFUL_STATS").is_ok() {
+            eprintln!("FAITHFUL {:?}", crate::driver::print_is_faithful(t, &t.input));
+        }
         // idempotence needs a diagnostic-free, JSX-free output
         if !t.diags.is_empty() || jsx_census(raw).total > 0 {
             return (Verdict::Pass, None);
